@@ -59,6 +59,11 @@ RULE = ("every fault script for batches of N cases (N=2 quick; N=3 and 2 thoroug
 
 
 def run(ctx):
+    sys.path.insert(0, os.path.dirname(os.path.abspath(__file__)))
+    import g_refserver
+    if ctx.replay and g_refserver.owns_replay(ctx.replay):   # replay file written by the life-cycle leg
+        g_refserver.leg(ctx)
+        return
     mc = ctx.tlc("ServerBatch", "MC_ServerBatch.cfg", timeout=1800)
     ctx.notes["mc_design"] = dict(distinct=mc.distinct, generated=mc.generated)
     batch_leg(ctx, ctx.quick, True)
@@ -71,6 +76,10 @@ def run(ctx):
     ctx.cov["exhaustive"] = True
     ctx.cov["rule"] = RULE
     ctx.assumptions += ASSUMPTIONS
+    if not ctx.replay:
+        # growth item: RefServer.tla (life cycle of a server process) bound to referenceserver.Run and grpcserver.Run
+        g_refserver.leg(ctx)
+        ctx.cov["rule"] += " " + ctx.notes.get("refserver_rule", "")
 
 
 def batch_leg(ctx, q, with_process):
